@@ -31,6 +31,10 @@ META = {
 POS = (Fraction(1, 10 ** 9), None)
 ZR = (-4, 4)
 EL = "from chempy.electrolytes import *\nfrom chempy import electrolytes as E\nimport numpy as np\n"
+FACT = ("import re as _re\nfrom chempy import Substance as _Sub\n"
+        "def _iupac(key):\n"
+        "    m = _re.match(r'([A-Za-z]+)(\\d*)([+-])$', key)\n"
+        "    return _Sub(key, composition={0: int(m.group(2) or 1) * (1 if m.group(3) == '+' else -1)})\n")
 # a physically plausible point for the witness search (generic rational points make exp(-A ...) underflow on both sides)
 PHYS = {"c1": "1/10", "c2": "1/5", "a1": "1/2000000000", "a2": "3/10000000000", "T": "298", "eps": "78", "rho": "997", "T2": "363", "eps2": "58",
         "rho2": "965", "Cv": "1/10"}
@@ -59,6 +63,14 @@ CASES = [
                "ionic_strength({'Na+': b1, 'SO4-2': b2}, substances='SO4-2 Na+', warn=False), "
                "ionic_strength({'SO4-2': b2, 'Na+': b1}, substances='SO4-2 Na+', warn=False))",
          formula="((4*b1 + 9*b2 + b3)/2, (9*b1 + 4*b2 + b3)/2, (b1 + 4*b2)/2, (b1 + 4*b2)/2)"),
+    # a caller-supplied substance factory decides how a key is read (here: IUPAC-style 'Fe3+' = Fe with charge +3, which the default
+    # parser reads as Fe3 with charge +1) - with and without an explicit `substances` string
+    dict(name="ionic_strength_factory", targets=["chempy.electrolytes.ionic_strength"], setup=EL + FACT,
+         vars={"b1": POS, "b2": POS},
+         plain="(ionic_strength({'Fe3+': b1, 'Cl-': b2}, substance_factory=_iupac, warn=False), "
+               "ionic_strength({'Fe3+': b1, 'Cl-': b2}, substances='Fe3+ Cl-', substance_factory=_iupac, warn=False), "
+               "ionic_strength({'Cl-': b2, 'Fe3+': b1}, substances='Fe3+ Cl-', substance_factory=_iupac, warn=False))",
+         formula="((9*b1 + b2)/2, (9*b1 + b2)/2, (9*b1 + b2)/2)"),
     dict(name="ionic_strength_arrays", targets=["chempy.electrolytes.ionic_strength"], setup=EL,
          vars={"b1": POS, "b2": POS, "n_z1": ZR, "n_z2": ZR},
          plain="ionic_strength([np.array([b1], dtype=object), np.array([b2], dtype=object)], [n_z1, n_z2])[0]",
